@@ -256,7 +256,7 @@ def run(ctx):
         jobs += list(D.deviation_docs([['**kern'], ['**text', '**kern', '**kern']], 1, (ctx.seed + 3,)))
     else:
         jobs += list(D.deviation_docs(hdrs[:6], 2, (ctx.seed + 3,)))
-    ctx.pmap(_doc_job, list(X.chunks(jobs, 150)), chunksize=1)
+    ctx.pmap(_doc_job, [[j] for j in D.long_docs(ctx.seed)] + list(X.chunks(jobs, 150)), chunksize=1)
 
 
 def replay(case):
